@@ -17,8 +17,9 @@ results of the other properties.
   3. `accepted_document_passes_checks`: unique type names and the decidable checks `parentsOkB` / `selOkB` / `fitsS` of
      `impl_no_panic` follow from what the REAL pipeline guarantees before generation — `checkOp S D = []` — through
      prove-c08b's walk lemma (`Lemmas/StagesGen*.lean`), under the schema conditions `schemaOkB` / `ifaceOkB`
-     (both established by the schema check for documents with unique type names: `C08.schemaOk_of_checked`,
-     `C08.ifaceOk_of_checked`; not imported here because the schema-check model is being changed) and `skipIncludeB`.
+     (both established by the schema check, which since fix 8cdbacf also establishes unique type names:
+     `C08.schemaOk_of_checked` — with `noReservedFieldsB` —, `C08.ifaceOk_of_checked`, Props/C08Stages.lean, for resolved
+     documents with `builtinTypeNamesDistinct`; not imported here, kept as hypotheses) and `skipIncludeB`.
      `schema_conditions_of_valid`: `schemaOkB` and C10's `DocOK` from C03's `SchemaValid` (+ no `__` type names + the
      conditions on scalar texts); `spec_fragment_map_agrees`: the two fragment maps coincide on accepted documents.
   `C01_pipeline_end_to_end` composes the three.
@@ -295,15 +296,20 @@ OPEN after this file — carried by K/O only
   * that the Lean models ARE the code: the operation type printer (K of C01), the schema declaration printer (K of C10),
     the operation checker (K of C03/C04);
   * the reading of the emitted TypeScript (Ts/Sem.lean, Ts/SelSem.lean) — trusted;
-  * the schema-side hypotheses `schemaOkB` / `ifaceOkB` (derived from the schema check + unique type names in
-    `Props/C08Stages.lean`: `schemaOk_of_checked`, `ifaceOk_of_checked` — kept as hypotheses here because the model of the
-    schema check is being changed so that unique type names follow from it), `skipIncludeB` (a schema may shadow `@skip`),
+  * the schema-side hypotheses `schemaOkB` / `ifaceOkB` (derived from the schema check in `Props/C08Stages.lean`:
+    `schemaOk_of_checked` — under `builtinTypeNamesDistinct` and `noReservedFieldsB` —, `ifaceOk_of_checked` — under
+    `builtinTypeNamesDistinct`; the schema check establishes unique type names since fix 8cdbacf; that module is not
+    imported, they are kept as hypotheses here; `schemaOkB` also follows from C03's `SchemaValid`:
+    `schema_conditions_of_valid`), `skipIncludeB` (a schema may shadow `@skip` / `@include`: C08's open finding),
     C10's `DocOK` (unique type names, field / member types defined and usable — what the schema check reports —, scalar
-    texts clear of the printer's identifiers) and `CfgOk` (scalar value sets = configured texts — a definition, C09's
+    texts clear of the printer's identifiers; the parse of a scalar text is not modelled: `Cfg.parses` is a supplied
+    table, constrained by `DocOK.parses` only) and `CfgOk` (scalar value sets = configured texts — a definition, C09's
     subject —; no scalar text admits `null` / applies an absolute reference; `inhabited`: every composite type has a
     possible object type — an interface without implementing object type is valid GraphQL, its member type `never` is
     read as "key absent" by the trusted reading of `__SelectionSet`);
-  * `noKeyClashB` (FieldsInSetCanMerge): part of spec validity, NOT checked by the real `check` (C03's open finding);
+  * `noKeyClashB` (FieldsInSetCanMerge): part of spec validity, NOT checked by the real `check`
+    (`C03_field_merge_not_implemented`, Props/C03FieldMerge.lean; open finding recorded under C08,
+    `O:panic:generate:leaf-object-key-clash`);
   * the wrapper bound of `resultTree_ok` is sufficient, not necessary (`wrapper_bound_witness`);
   * `opFileOf` has only the import and the result-type statements of the operation file (no Variables types, no document
     constants): the theorems hold for EVERY flat file with that one star import (`C01_end_to_end`).
